@@ -12,6 +12,7 @@ import (
 func extractAll(repo string, o *out) {
 	extractToxics(repo, o)
 	extractLink(repo, o)
+	extractAPI(repo, o)
 }
 
 // emit writes  Definition name params : ty := body.  or, when body is empty, the last-known value.
